@@ -2272,13 +2272,26 @@ impl PeerConnection {
         };
 
         let sctp_needed = {
-            let remote = self.inner.remote_description.lock();
-            if let Some(desc) = &*remote {
+            let has_application = |desc: &SessionDescription| {
                 desc.media_sections
                     .iter()
                     .any(|m| m.kind == MediaKind::Application)
+            };
+            let remote = self.inner.remote_description.lock();
+            if let Some(desc) = &*remote {
+                has_application(desc)
             } else {
-                false
+                // set_remote_description starts ICE before it stores the
+                // description. On a fast path (loopback/LAN, busy application
+                // thread) ICE + nomination finish first and we get here while
+                // the remote description is still absent: deciding "no SCTP"
+                // then left the data channels of this connection unopened for
+                // good. Fall back to what we negotiated ourselves.
+                self.inner
+                    .local_description
+                    .lock()
+                    .as_ref()
+                    .is_some_and(has_application)
             }
         };
 
